@@ -206,15 +206,17 @@ def message_cases(draw):
         tail = draw(st.sampled_from([b"\xac", b"\x82\xac", b"ok", b"\xc3\xa9", b"\xa9", b""]))
         specs.append({"fin": 1, "op": rm.TEXT, "p": tail, "key": None})
         specs += draw(rx.message(big=False))
-    return {"frames": specs, "driver": driver, "skip": skip, "mut": mut, "as_close": as_close, "text": data, "resume": resume}
+    return {"frames": specs, "driver": driver, "skip": skip, "mut": mut, "as_close": as_close, "text": data, "resume": resume,
+            "cf": draw(st.integers(0, 2)) == 0, "flags_as_int": draw(st.integers(0, 3)) == 0}
 
 
 def run_message(case):
     obs = Obs()
     specs, driver, skip = case["frames"], case["driver"], case["skip"]
     resume = bool(case.get("resume"))
-    events, ws, fs, frames, ends, wire = rx.run_stream(specs, [], driver, False, False, skip, resume=resume)
-    want, wwr = rx.expected_events(frames, ends, len(wire), driver, False, False, skip, resume=resume)
+    cf = bool(case.get("cf")) and driver in ("data", "data_frame")  # control frames handed to the caller: the call returns in mid-message
+    events, ws, fs, frames, ends, wire = rx.run_stream(specs, [], driver, cf, False, skip, resume=resume, flags_as_int=bool(case.get("flags_as_int")))
+    want, wwr = rx.expected_events(frames, ends, len(wire), driver, cf, False, skip, resume=resume)
     valid = rm.utf8_wellformed(case["text"])
     if valid != rm.utf8_wellformed_cpython(case["text"]):
         raise HarnessError(f"reference recognisers disagree on {case['text'].hex()}")
@@ -231,8 +233,9 @@ def run_message(case):
                 split_mb = True
     nt = (not valid) or split_mb or (case["mut"] != "none")
     nfr = sum(1 for s in specs if s["op"] in (rm.TEXT, rm.CONT))
-    obs.cls = (f"msg:{where}", f"valid:{int(valid)}", f"mut:{case['mut']}", f"skip:{int(skip)}", driver, f"split_mb:{int(split_mb)}")
-    obs.nt = (where, case["text"], skip, driver, nfr, resume, len(specs)) if nt else None
+    obs.cls = (f"msg:{where}", f"valid:{int(valid)}", f"mut:{case['mut']}", f"skip:{int(skip)}", driver, f"split_mb:{int(split_mb)}", f"control_frames_reported:{int(cf)}",
+               f"flags_as_int:{int(bool(case.get('flags_as_int')))}")
+    obs.nt = (where, case["text"], skip, driver, nfr, resume, len(specs), cf, bool(case.get("flags_as_int"))) if nt else None
     return obs
 
 
